@@ -433,6 +433,7 @@ type State struct {
 	weak    bool                    // the path passed the head of a loop that has no invariant: states on it need not be reachable
 	preArgs map[*ast.CallExpr][]Val // arguments of deferred calls, evaluated at the defer statement (Go semantics)
 	inlineEntry *State              // state at the entry of the function being executed inline (old() of its loop invariants)
+	epoch   string                  // non-empty in the body of an anonymous goroutine: heap components first read there are fresh (nothing is known of them at that later, concurrent moment)
 }
 
 // poll is a point where the goroutine looks at the stop signals: a select with stop cases
@@ -464,7 +465,7 @@ func (s *State) wrote(comp, ref, guard string) {
 }
 
 func (s *State) fork() *State {
-	n := &State{vars: make(map[types.Object]Val, len(s.vars)), heap: make(map[string]Val, len(s.heap)), nextref: s.nextref}
+	n := &State{vars: make(map[types.Object]Val, len(s.vars)), heap: make(map[string]Val, len(s.heap)), nextref: s.nextref, epoch: s.epoch}
 	for k, v := range s.vars {
 		n.vars[k] = v
 	}
